@@ -413,7 +413,7 @@ def main(ck):
                       bucket='geom-normal')
     worst['normal'] = max(worst['normal'], ne / cond)
 
-  ck.run_hypothesis(test, scene_strategy(), ck.budget(150, 1200), name='rays', shrink=False)
+  ck.run_hypothesis(test, scene_strategy(), ck.budget(150, 1500), name='rays', shrink=False)
   ck.extra['tolerances'] = dict(K_X=K_X, K_N=K_N, TANGENT=TANGENT)
   ck.extra['worst_observed'] = worst
   ck.extra['stats'] = stats
